@@ -5,7 +5,7 @@ C11, physical equality: **the state after a push depends on the documented value
   push_phys   push ext b x = ok b'  →  interpDT ext dt n md x = ok lv  →  pushL un lv (erase b) = erase b'
 
 for every builder family and every serde value without raw key/value streams, at any nesting (hypotheses of R2:
-`WFB`, `Safe`, `Shape`).  One mutual structural recursion over the serde value; the loops (`pushElems`, `pushCountElems`,
+`WFH`, `NoDictKey`, `Shape`).  One mutual structural recursion over the serde value; the loops (`pushElems`, `pushCountElems`,
 `pushTupleElems`, `pushFields`, `pushStructEntries`, `pushMapEntries`) are part of it.
 -/
 namespace SaModel.Build
@@ -22,26 +22,26 @@ theorem get?_lt_length {α} {l : List α} {j : Nat} {a : α} (h : l[j]? = some a
 
 /-- the hypotheses the union row needs about the variant's child -/
 theorem union_child {p fs types offs cur} {i : Nat} {c : B} {m : FieldMeta} {ufs : UFields}
-    (hwf : WFB (.union p fs types offs cur)) (hs : Safe (.union p fs types offs cur)) (hsu : ShapeU fs ufs 0)
+    (hwf : WFH (.union p fs types offs cur)) (hs : NoDictKey (.union p fs types offs cur)) (hsu : ShapeU fs ufs 0)
     (hget : fs.get? i = some (c, m)) :
-    WFB c ∧ Safe c ∧ ∃ fname fdt fn fmd, ufs.toList[i]? = some ((i : Int), .mk fname fdt fn fmd) ∧ Shape c fdt fn fmd := by
-  simp only [WFB] at hwf
-  simp only [Safe] at hs
+    WFH c ∧ NoDictKey c ∧ ∃ fname fdt fn fmd, ufs.toList[i]? = some ((i : Int), .mk fname fdt fn fmd) ∧ Shape c fdt fn fmd := by
+  simp only [WFH] at hwf
+  simp only [NoDictKey] at hs
   obtain ⟨fname, fdt, fn, fmd, hufs, hshc⟩ := ShapeU.get fs ufs 0 i c m hsu hget
   simp only [Nat.zero_add] at hufs
-  exact ⟨(WFU_get _ _ _ _ hwf.2.2.1 hget).2, SafeL.get _ _ _ hs hget, fname, fdt, fn, fmd, hufs, hshc⟩
+  exact ⟨(WFHU_get _ _ _ _ hwf.2.2.1 hget).2, NoDictKeyL.get _ _ _ hs hget, fname, fdt, fn, fmd, hufs, hshc⟩
 
 /-- what the induction hypothesis for `pushTupleElems` provides: field `j ≥ next` receives element `j - next`, fields
 before `next` are not touched -/
 def TuplePhys (ext : Ext) (un : Bytes → String) (xs : SVals) : Prop :=
-  ∀ (fs0 : BL) (s s' : SS) (adds : List (List LVal)) (sfs : Fields), Mid fs0 s adds → ShapeL s.fields sfs →
+  ∀ (fs0 : BL) (s s' : SS) (adds : List (List LVal)) (sfs : Fields), MidH fs0 s adds → ShapeL s.fields sfs →
     pushTupleElems ext s xs = .ok s' →
     ∀ j f found, sfs.toList[j]? = some f → (j < s.next → ChildRel un s s' j []) ∧
       (s.next ≤ j → interpNth ext f.dataType f.nullable f.metadata (j - s.next) xs = .ok found → ChildRel un s s' j found)
 
 /-- what the induction hypothesis for `pushFields` provides -/
 def FieldsPhys (ext : Ext) (un : Bytes → String) (fields : SFields) : Prop :=
-  ∀ (fs0 : BL) (s s' : SS) (adds : List (List LVal)) (sfs : Fields), Mid fs0 s adds → ShapeL s.fields sfs →
+  ∀ (fs0 : BL) (s s' : SS) (adds : List (List LVal)) (sfs : Fields), MidH fs0 s adds → ShapeL s.fields sfs →
     pushFields ext s fields = .ok s' →
     ∀ j f found, sfs.toList[j]? = some f →
       interpByName ext f.name f.dataType f.nullable f.metadata fields = .ok found → ChildRel un s s' j found
@@ -49,7 +49,7 @@ def FieldsPhys (ext : Ext) (un : Bytes → String) (fields : SFields) : Prop :=
 /-- a positional record (tuple, tuple struct, tuple variant) into a struct builder -/
 theorem tuple_phys (ext : Ext) (un : Bytes → String) (xs : SVals) (hloop : TuplePhys ext un xs)
     {p len v fs cached next seen} {b' : B} {dt : DataType} {n : Bool} {md : Metadata} {lv : LVal}
-    (hwf : WFB (.struct p len v fs cached next seen)) (hs : Safe (.struct p len v fs cached next seen))
+    (hwf : WFH (.struct p len v fs cached next seen)) (hs : NoDictKey (.struct p len v fs cached next seen))
     (hsh : Shape (.struct p len v fs cached next seen) dt n md)
     (h : (do
       let s ← SS.start ⟨p, len, v, fs, cached, next, seen⟩
@@ -62,8 +62,8 @@ theorem tuple_phys (ext : Ext) (un : Bytes → String) (xs : SVals) (hloop : Tup
   simp only [Shape] at hsh'
   obtain ⟨_, sfs, rfl, hsl⟩ := hsh'
   simp only [seqSpec, isUnknownVariant, Bool.false_eq_true, if_false, if_true] at hi
-  have hnd : fs.names.Nodup := by simp only [WFB] at hwf; exact hwf.2.2.2.1
-  refine record_phys (pf := fun s => pushTupleElems ext s xs) _ hwf hs hsl (pushTupleElems_appends ext xs) ?_ h hi
+  have hnd : fs.names.Nodup := by simp only [WFH] at hwf; exact hwf.2.2.2.1
+  refine record_phys (pf := fun s => pushTupleElems ext s xs) _ hwf hs hsl (pushTupleElems_refines ext xs) ?_ h hi
   intro s1 s2 hn0 hf1 hm1 hp j f found hj hc
   have hidx : indexOfName (sfs.toList.map Field.name) f.name = some j := by
     rw [← ShapeL.names fs sfs hsl]
@@ -75,7 +75,7 @@ theorem tuple_phys (ext : Ext) (un : Bytes → String) (xs : SVals) (hloop : Tup
 /-- a struct presentation (record, struct variant) into a struct builder -/
 theorem fields_phys (ext : Ext) (un : Bytes → String) (fields : SFields) (hloop : FieldsPhys ext un fields)
     {p len v fs cached next seen} {b' : B} {sfs : Fields} {n : Bool} {md : Metadata} {lv : LVal}
-    (hwf : WFB (.struct p len v fs cached next seen)) (hs : Safe (.struct p len v fs cached next seen))
+    (hwf : WFH (.struct p len v fs cached next seen)) (hs : NoDictKey (.struct p len v fs cached next seen))
     (hsh : Shape (.struct p len v fs cached next seen) (.struct sfs) n md)
     (h : (do
       let s ← SS.start ⟨p, len, v, fs, cached, next, seen⟩
@@ -88,7 +88,7 @@ theorem fields_phys (ext : Ext) (un : Bytes → String) (fields : SFields) (hloo
   simp only [Shape] at hsh'
   obtain ⟨_, sfs', hsfs, hsl⟩ := hsh'
   cases hsfs
-  refine record_phys (pf := fun s => pushFields ext s fields) _ hwf hs hsl (pushFields_appends ext fields) ?_ h hi
+  refine record_phys (pf := fun s => pushFields ext s fields) _ hwf hs hsl (pushFields_refines ext fields) ?_ h hi
   intro s1 s2 _ hf1 hm1 hp j f found hj hc
   exact hloop fs s1 s2 _ sfs hm1 (by rw [hf1]; exact hsl) hp j f found hj hc
 
@@ -158,7 +158,7 @@ theorem interpDT_tupleVariant_seq (ext : Ext) (ufs : UFields) (mode : UnionMode)
 mutual
 theorem push_phys (ext : Ext) (un : Bytes → String) (hun : ∀ s, un (strBytes s) = s) :
     ∀ (x : SVal) (b b' : B) (dt : DataType) (n : Bool) (md : Metadata) (lv : LVal),
-    noRaw x = true → WFB b → Safe b → Shape b dt n md → push ext b x = .ok b' → interpDT ext dt n md x = .ok lv →
+    noRaw x = true → WFH b → NoDictKey b → Shape b dt n md → push ext b x = .ok b' → interpDT ext dt n md x = .ok lv →
     pushL un lv (erase b) = erase b'
   | .some v, b, b', dt, n, md, lv, hraw, hwf, hs, hsh, h, hi => by
     rw [push] at h; rw [interpDT] at hi
@@ -237,7 +237,7 @@ theorem push_phys (ext : Ext) (un : Bytes → String) (hun : ∀ s, un (strBytes
       obtain ⟨_, _, hi⟩ := (bind_ok _ _ _).1 hi
       refine record_phys (pf := fun s => pushStructEntries ext { s with next := UNKNOWN_KEY } es)
         (fun f => interpByKey ext f.name f.dataType f.nullable f.metadata es) hwf hs hsl
-        ((pushStructEntries_appends ext es).next _) ?_ h hi
+        ((pushStructEntries_refines ext es).next _) ?_ h hi
       intro s1 s2 _ hf1 hm1 hp j f found hj hc
       have := pushStructEntries_phys ext un hun es fs _ s2 _ sfs hraw' (hm1.next UNKNOWN_KEY)
         (by simp only; rw [hf1]; exact hsl) hp j f found hj hc
@@ -253,8 +253,8 @@ theorem push_phys (ext : Ext) (un : Bytes → String) (hun : ∀ s, un (strBytes
       simp only [interpDT, isUnknownVariant, Bool.false_eq_true, if_false] at hi
       obtain ⟨ents, hents, hi⟩ := (bind_ok _ _ _).1 hi
       cases hi
-      simp only [WFB] at hwf
-      simp only [Safe] at hs
+      simp only [WFH] at hwf
+      simp only [NoDictKey] at hs
       obtain ⟨l, hl, rfl⟩ := duplicateLast_ok h2
       obtain ⟨hk, hv, ho⟩ := pushMapEntries_phys ext un hun es _ ks vs _ kdt knl kmd vdt vnl vmd ents hraw'
         hwf.2.2.2.1 hwf.2.2.2.2 hs.1 hs.2 hsk hsv h3 hents
@@ -452,10 +452,10 @@ theorem pushElems_phys (ext : Ext) (un : Bytes → String) (hun : ∀ s, un (str
     obtain ⟨lv, hlv, hi⟩ := (bind_ok _ _ _).1 hi
     obtain ⟨ls', hls', hi⟩ := (bind_ok _ _ _).1 hi
     cases hi
-    obtain ⟨hel', _⟩ := push_appends ext x el el' hwf hs h2
+    obtain ⟨hel', _⟩ := push_refines ext x el el' hwf hs h2
     have ht := push_takeRest ext x el el' h2
     have hx := push_phys ext un hun x el el' cdt cn cmd lv hraw'.1 hwf hs hsh h2 hlv
-    obtain ⟨ih1, ih2⟩ := pushElems_phys ext un hun rest hraw'.2 large el' o' r cdt cn cmd ls' hel' (Safe.of_takeRest ht hs)
+    obtain ⟨ih1, ih2⟩ := pushElems_phys ext un hun rest hraw'.2 large el' o' r cdt cn cmd ls' hel' (NoDictKey.of_takeRest ht hs)
       (Shape.of_takeRest ht hsh) h hls'
     refine ⟨by simp only [LVals.ofList, pushLs, hx]; exact ih1, ?_⟩
     intro base l ho
@@ -482,10 +482,10 @@ theorem pushCountElems_phys (ext : Ext) (un : Bytes → String) (hun : ∀ s, un
     obtain ⟨lv, hlv, hi⟩ := (bind_ok _ _ _).1 hi
     obtain ⟨ls', hls', hi⟩ := (bind_ok _ _ _).1 hi
     cases hi
-    obtain ⟨hel', _⟩ := push_appends ext x el el' hwf hs h2
+    obtain ⟨hel', _⟩ := push_refines ext x el el' hwf hs h2
     have ht := push_takeRest ext x el el' h2
     have hx := push_phys ext un hun x el el' cdt cn cmd lv hraw'.1 hwf hs hsh h2 hlv
-    obtain ⟨ih1, ih2⟩ := pushCountElems_phys ext un hun rest hraw'.2 el' (c + 1) r cdt cn cmd ls' hel' (Safe.of_takeRest ht hs)
+    obtain ⟨ih1, ih2⟩ := pushCountElems_phys ext un hun rest hraw'.2 el' (c + 1) r cdt cn cmd ls' hel' (NoDictKey.of_takeRest ht hs)
       (Shape.of_takeRest ht hsh) h hls'
     refine ⟨by simp only [LVals.ofList, pushLs, hx]; exact ih1, ?_⟩
     rw [ih2]; simp only [List.length_cons]; omega
@@ -507,8 +507,8 @@ theorem pushTupleElems_phys (ext : Ext) (un : Bytes → String) (hun : ∀ s, un
     split at h
     · rename_i hlt
       obtain ⟨s1, h1, h⟩ := (bind_ok _ _ _).1 h
-      obtain ⟨c, m, c', lv0, hget, hseen, hpc, hwc, hsc, _, hm1, _, hnext, _, hfs1, _⟩ := SS.element_rows hm
-        (StepOK.of_push (fun c c' => push_appends ext x c c')) h1
+      obtain ⟨c, m, c', lv0, hget, hseen, hpc, hwc, hsc, _, hm1, _, hnext, _, hfs1, _⟩ := SS.element_rowsH hm
+        (StepOKH.of_push (fun c c' => push_refines ext x c c')) h1
       obtain ⟨_, _, _, _, _, _, _, hs1⟩ := SS.element_parts h1
       obtain ⟨fi, hji, hshc, _, _⟩ := ShapeL.get _ _ _ _ _ hsl hget
       have hsl1 : ShapeL s1.fields sfs := by
@@ -571,8 +571,8 @@ theorem pushFields_phys (ext : Ext) (un : Bytes → String) (hun : ∀ s, un (st
       have hidx : indexOfName s.fields.names key = some idx := hls.1.symm
       obtain ⟨s1, h1, h⟩ := (bind_ok _ _ _).1 h
       obtain ⟨c, m, c', lv0, hget, hseen, hpc, hwc, hsc, _, hm1, _, _, _, hfs1, _⟩ :=
-        SS.element_rows (hm.cached cached' hls.2)
-          (StepOK.of_push (fun c c' => push_appends ext x c c')) h1
+        SS.element_rowsH (hm.cached cached' hls.2)
+          (StepOKH.of_push (fun c c' => push_refines ext x c c')) h1
       obtain ⟨_, _, _, _, _, _, _, hs1⟩ := SS.element_parts h1
       simp only at hget hfs1 hseen hs1
       obtain ⟨fi, hji, hshc, _, _⟩ := ShapeL.get _ _ _ _ _ hsl hget
@@ -599,7 +599,7 @@ theorem pushFields_phys (ext : Ext) (un : Bytes → String) (hun : ∀ s, un (st
 
 theorem pushStructEntries_phys (ext : Ext) (un : Bytes → String) (hun : ∀ s, un (strBytes s) = s) :
     ∀ (es : SEntries) (fs0 : BL) (s s' : SS) (adds : List (List LVal)) (sfs : Fields), noRawe es = true →
-    Mid fs0 s adds → ShapeL s.fields sfs → pushStructEntries ext s es = .ok s' →
+    MidH fs0 s adds → ShapeL s.fields sfs → pushStructEntries ext s es = .ok s' →
     ∀ j f found, sfs.toList[j]? = some f →
       interpByKey ext f.name f.dataType f.nullable f.metadata es = .ok found → ChildRel un s s' j found
   | .nil, fs0, s, s', adds, sfs, _, _, _, h => by
@@ -625,7 +625,7 @@ theorem pushStructEntries_phys (ext : Ext) (un : Bytes → String) (hun : ∀ s,
     · rename_i idx hidx
       obtain ⟨s1, h1, h⟩ := (bind_ok _ _ _).1 h
       obtain ⟨c, m, c', lv0, hget, hseen, hpc, hwc, hsc, _, hm1, _, _, _, hfs1, _⟩ :=
-        SS.element_rows hm (StepOK.of_push (fun c c' => push_appends ext x c c')) h1
+        SS.element_rowsH hm (StepOKH.of_push (fun c c' => push_refines ext x c c')) h1
       obtain ⟨_, _, _, _, _, _, _, hs1⟩ := SS.element_parts h1
       obtain ⟨fi, hji, hshc, _, _⟩ := ShapeL.get _ _ _ _ _ hsl hget
       have hsl1 : ShapeL s1.fields sfs := by
@@ -652,7 +652,7 @@ theorem pushStructEntries_phys (ext : Ext) (un : Bytes → String) (hun : ∀ s,
 theorem pushMapEntries_phys (ext : Ext) (un : Bytes → String) (hun : ∀ s, un (strBytes s) = s) :
     ∀ (es : SEntries) (offs : List Int) (ks vs : B) (r : List Int × B × B)
     (kdt : DataType) (kn : Bool) (kmd : Metadata) (vdt : DataType) (vn : Bool) (vmd : Metadata) (ents : List (LVal × LVal)),
-    noRawe es = true → WFB ks → WFB vs → Safe ks → Safe vs → Shape ks kdt kn kmd → Shape vs vdt vn vmd →
+    noRawe es = true → WFH ks → WFH vs → NoDictKey ks → NoDictKey vs → Shape ks kdt kn kmd → Shape vs vdt vn vmd →
     pushMapEntries ext offs ks vs es = .ok r → interpEntries ext kdt kn kmd vdt vn vmd es = .ok ents →
     pushLK un (LEntries.ofList ents) (erase ks) = erase r.2.1 ∧ pushLW un (LEntries.ofList ents) (erase vs) = erase r.2.2 ∧
       ∀ base l, offs = base ++ [l] → r.1 = base ++ [l + (ents.length : Int)]
@@ -671,14 +671,14 @@ theorem pushMapEntries_phys (ext : Ext) (un : Bytes → String) (hun : ∀ s, un
     obtain ⟨vv, hvv, hi⟩ := (bind_ok _ _ _).1 hi
     obtain ⟨ents', hents', hi⟩ := (bind_ok _ _ _).1 hi
     cases hi
-    obtain ⟨hk', _⟩ := push_appends ext k ks ks' hk hsk h2
-    obtain ⟨hv', _⟩ := push_appends ext x vs vs' hv hsv h3
+    obtain ⟨hk', _⟩ := push_refines ext k ks ks' hk hsk h2
+    obtain ⟨hv', _⟩ := push_refines ext x vs vs' hv hsv h3
     have htk := push_takeRest ext k ks ks' h2
     have htv := push_takeRest ext x vs vs' h3
     have hxk := push_phys ext un hun k ks ks' kdt kn kmd kv hraw'.1.1 hk hsk hshk h2 hkv
     have hxv := push_phys ext un hun x vs vs' vdt vn vmd vv hraw'.1.2 hv hsv hshv h3 hvv
     obtain ⟨ih1, ih2, ih3⟩ := pushMapEntries_phys ext un hun rest o' ks' vs' r kdt kn kmd vdt vn vmd ents' hraw'.2 hk' hv'
-      (Safe.of_takeRest htk hsk) (Safe.of_takeRest htv hsv) (Shape.of_takeRest htk hshk) (Shape.of_takeRest htv hshv) h hents'
+      (NoDictKey.of_takeRest htk hsk) (NoDictKey.of_takeRest htv hsv) (Shape.of_takeRest htk hshk) (Shape.of_takeRest htv hshv) h hents'
     refine ⟨by simp only [LEntries.ofList, pushLK, hxk]; exact ih1, by simp only [LEntries.ofList, pushLW, hxv]; exact ih2, ?_⟩
     intro base l ho
     subst ho
